@@ -142,6 +142,13 @@ fn run_inner(ex: &mut Exec<'_>, plan: &Plan) -> Result<(), Stop> {
         }
     }
     let steps_base = ex.last_build_steps.clone();
+    // how many pages did the transaction add? (sizes the out-of-space scenarios so that the map fills up
+    // at every stage of the build, not only at its first write)
+    let bytes = |d: &crate::decode::Dump| d.iter().map(|(k, v)| k.len() + v.len() + 16).sum::<usize>();
+    let grown = {
+        let after = ex.dump_current();
+        bytes(&after).saturating_sub(bytes(&ex.committed_dump)) / 4096 + 2
+    };
     check_valid_build(ex, &target, "baseline")?;
     let pre_hash = crate::decode::dump_hash(&ex.committed_dump);
     ex.world = ex.committed.clone();
@@ -151,7 +158,7 @@ fn run_inner(ex: &mut Exec<'_>, plan: &Plan) -> Result<(), Stop> {
     // ---- scenarios
     let scenarios: Vec<Fault> = match &plan.scenarios {
         Some(s) => s.clone(),
-        None => enumerate(plan, polls, n_writes, n_mmaps, n_creates, n_madvise, ex.plan.cfg.private_tmpdir),
+        None => enumerate(plan, polls, n_writes, n_mmaps, n_creates, n_madvise, ex.plan.cfg.private_tmpdir, grown),
     };
     for (si, f) in scenarios.iter().enumerate() {
         ex.out.stats.cases += 1;
@@ -314,7 +321,7 @@ fn fault_name(f: &Fault) -> String {
     }
 }
 
-fn enumerate(plan: &Plan, polls: u64, n_writes: u64, n_mmaps: u64, n_creates: u64, n_madvise: u64, private_tmpdir: bool) -> Vec<Fault> {
+fn enumerate(plan: &Plan, polls: u64, n_writes: u64, n_mmaps: u64, n_creates: u64, n_madvise: u64, private_tmpdir: bool, grown: usize) -> Vec<Fault> {
     let mut v = Vec::new();
     let mut r = Rng::new(plan.seed ^ 0x5CE);
     // cancel at every n
@@ -334,7 +341,13 @@ fn enumerate(plan: &Plan, polls: u64, n_writes: u64, n_mmaps: u64, n_creates: u6
             v.push(Fault::CancelAt { n: 300 + r.below(polls - 600) });
         }
     }
-    for pages in [0usize, 1, 2, 3, 4, 6, 8, 12, 16, 24, 32, 64] {
+    let mut sizes: Vec<usize> = vec![0, 1, 2, 3, 4, 6, 8, 12, 16, 24, 32, 64];
+    for k in 1..=16usize {
+        sizes.push(grown * k / 8);
+    }
+    sizes.sort_unstable();
+    sizes.dedup();
+    for pages in sizes {
         v.push(Fault::MapFull { pages });
     }
     for mode in ["missing", "file"] {
